@@ -421,7 +421,11 @@ func runCrash(c *Ctx) {
 	}
 	// 3. mutations, grammar, command
 	for i := 0; i < n; i++ {
-		switch k := g.r.Intn(20); {
+		k := g.r.Intn(20)
+		if k == 19 && !g.r.Chance(1, 4) {
+			k = g.r.Intn(19) // child-process runs of the binary are slow: 1 case in 80
+		}
+		switch {
 		case k < 9:
 			cq := g.corpus[g.r.Intn(len(g.corpus))]
 			other := g.corpus[g.r.Intn(len(g.corpus))].query
